@@ -264,14 +264,45 @@ pub fn fuzz_stream(casefile: &str)
 				}
 				None => String::new(),
 			};
+			// spelling facts the model proves (Proofs/FuzzerProofs.v token_spelled): identifiers and
+			// builtins have at most 38 characters and contain an upper-case letter or `_`
+			let mut maxident = 0usize;
+			let mut unmarked = 0usize;
+			let mut kinds = std::collections::HashSet::new();
+			for t in &a
+			{
+				if let Ok(tok) = &t.result
+				{
+					kinds.insert(std::mem::discriminant(tok));
+					let name = match tok
+					{
+						penne::alpha::lexer::Token::Identifier(n) => Some(n.as_str()),
+						penne::alpha::lexer::Token::Builtin(n) => Some(n.as_str()),
+						_ => None,
+					};
+					if let Some(n) = name
+					{
+						let n = n.trim_end_matches('!');
+						maxident = maxident.max(n.chars().count());
+						if !n.chars().any(|c| c.is_ascii_uppercase() || c == '_') && n != "return"
+						{
+							unmarked += 1;
+						}
+					}
+				}
+			}
 			format!(
-				"len={} kb={} delta_errors={} alpha_errors={} delta_tokens={} alpha_tokens={}\t{}\t{}",
+				"len={} kb={} delta_errors={} alpha_errors={} delta_tokens={} alpha_tokens={} maxident={} unmarked={} kinds={} utf8={}\t{}\t{}",
 				buffer.len(),
 				kb,
 				crate::util::codes_to_string(&derr),
 				aerr.len(),
 				d.base_tokens().len(),
 				a.len(),
+				maxident,
+				unmarked,
+				kinds.len(),
+				std::str::from_utf8(buffer.as_bytes()).is_ok(),
 				excerpt,
 				if derr.is_empty() && aerr.is_empty() { String::new() } else { crate::util::escape(buffer.as_bytes()) }
 			)
